@@ -208,12 +208,14 @@ func zzH_C15() {
 	}
 	for _, m := range z.conns {
 		m.auto = false
+		m.autoPing = true
 		m.out = make(chan []byte, 8)
 	}
 	autoOff := func() {
 		for _, m := range z.conns {
 			if m.out == nil {
 				m.auto = false
+				m.autoPing = true
 				m.out = make(chan []byte, 8)
 			}
 		}
@@ -244,8 +246,6 @@ func zzH_C15() {
 				if len(r.Upgrade) == 0 {
 					busy = m
 					req = r
-				} else {
-					m.deliver(zzResponse(r.Seq, "", nil)) // answer housekeeping pings
 				}
 			}
 		}
